@@ -1088,6 +1088,22 @@ verdict_t check_mcase(const mcase_t& c, ctx_t& ctx)
             const nano::learner_t& learner = gboost ? static_cast<const nano::learner_t&>(booster) : static_cast<const nano::learner_t&>(*linear);
             const tensor4d_t       direct  = learner.predict(dataset, s.samples);
 
+            // the overload that predicts into a buffer of the caller writes the same predictions whatever the buffer held before
+            // (a buffer re-used batch after batch)
+            {
+                tensor4d_t buffer(direct.dims());
+                buffer.full(123.0);
+                learner.predict(dataset, s.samples, buffer.tensor());
+                for (tensor_size_t k = 0; k < direct.size() && !out.bad(); ++k)
+                {
+                    const auto a = direct(k), b = buffer(k);
+                    if (!(a == b || (std::isnan(a) && std::isnan(b))))
+                    {
+                        out.add(cmp_t::bad, "final/predict-into-a-used-buffer-differs", cat("element ", k, ": fresh ", a, " used buffer ", b));
+                    }
+                }
+            }
+
             preds_t own;
             if (gboost)
             {
